@@ -130,7 +130,7 @@ def gen_replace_cases(rng, nrandom):
 
 
 def check_replace(chk, hx, oracle, corr_broken):
-    cases = gen_replace_cases(chk.rng, chk.budget(4000, 60000))
+    cases = gen_replace_cases(chk.rng, chk.budget(4000, 150000))
     lines = ["R %d %d %d %s" % (old, new, len(arr), " ".join(map(str, arr))) for (arr, old, new, _) in cases]
     impl = impl_batch(hx, lines, timeout=900)
     modl = common.batch(oracle, lines, timeout=900) if oracle else [None] * len(lines)
@@ -208,7 +208,7 @@ def script_text(segs):
 
 
 def check_module(chk, hx, oracle, corr_broken):
-    scripts = gen_module_scripts(chk.rng, chk.budget(600, 8000), chk.tier)
+    scripts = gen_module_scripts(chk.rng, chk.budget(600, 20000), chk.tier)
     lines = ["M %d %s" % (n, script_text(segs)) for (n, segs, _) in scripts]
     impl = impl_batch(hx, lines, timeout=1200)
     modl = common.batch(oracle, lines, timeout=1200) if oracle else [None] * len(lines)
@@ -325,7 +325,7 @@ def wscript_text(segs):
 
 
 def check_wiring(chk, name, hx, oracle, K, corr_broken):
-    scripts = gen_wiring_scripts(chk.rng.fork(name), K, chk.budget(400, 4000), chk.tier)
+    scripts = gen_wiring_scripts(chk.rng.fork(name), K, chk.budget(400, 10000), chk.tier)
     ks = "%d %d %d" % K
     lines = ["W %s %s" % (ks, wscript_text(segs)) for (segs, _) in scripts]
     impl = impl_batch(hx, lines, timeout=1200)
@@ -892,8 +892,8 @@ def run(chk):
     replay_witnesses_inprocess(chk, "nanos6", hx6, oracle, K6, corr_broken)
 
     emu_src = os.path.join(common.REPO, "src", "emu")
-    check_e2e(chk, build, model_nosv(Kv, emu_src), oracle, chk.budget(500, 6000))
-    check_e2e(chk, build, model_nanos6(K6, emu_src), oracle, chk.budget(300, 4000))
+    check_e2e(chk, build, model_nosv(Kv, emu_src), oracle, chk.budget(500, 20000))
+    check_e2e(chk, build, model_nanos6(K6, emu_src), oracle, chk.budget(300, 12000))
 
     if corr_broken:
         chk.coverage["correspondence_disagreements"] = [repr(x)[:400] for x in corr_broken[:10]]
